@@ -109,6 +109,7 @@ func Hex(b []byte) string { return fmt.Sprintf("%x", b) }
 // Failure is a direct property-oracle failure observed on the implementation.
 type Failure struct {
 	Stream string                 `json:"stream"`
+	Class  string                 `json:"class"` // stable root-cause class (call site + input class); known findings match on it
 	What   string                 `json:"what"`
 	Case   map[string]interface{} `json:"case"`
 }
@@ -125,6 +126,7 @@ type Summary struct {
 	Failures    []Failure              `json:"failures"`
 	Extra       map[string]interface{} `json:"extra,omitempty"`
 	distinct    map[string]bool
+	failCount   map[string]int
 }
 
 func NewSummary(rule string) *Summary {
@@ -151,9 +153,25 @@ func (s *Summary) Sample(x interface{}) {
 }
 
 func (s *Summary) Fail(stream, what string, c map[string]interface{}) {
-	if len(s.Failures) < 50 {
-		s.Failures = append(s.Failures, Failure{stream, what, c})
+	s.FailC(stream, "", what, c)
+}
+
+// FailC records a failure with a root-cause class. At most 5 failures per
+// (stream, class, what) are kept and 200 in total.
+func (s *Summary) FailC(stream, class, what string, c map[string]interface{}) {
+	if s.failCount == nil {
+		s.failCount = map[string]int{}
 	}
+	k := stream + "\x00" + class + "\x00" + what
+	s.failCount[k]++
+	if s.failCount[k] > 5 || len(s.Failures) >= 200 {
+		return
+	}
+	cc := map[string]interface{}{}
+	for kk, v := range c {
+		cc[kk] = v
+	}
+	s.Failures = append(s.Failures, Failure{stream, class, what, cc})
 }
 
 func (s *Summary) Print() {
